@@ -21,6 +21,7 @@ PROPERTY = 'C17'
 LEAN_TARGETS = ['CpProofs.C17', 'drv_c17']
 DRIVER = 'drv_c17'
 THEOREMS = [
+    'CpProofs.C17.tables_pinned',
     'CpProofs.C17.crc32_append',
     'CpProofs.C17.crc32_chunks',
     'CpProofs.C17.size_chunks',
@@ -93,6 +94,54 @@ RULE = ('gzip: bodies 0..300 KiB (random / text / zeros) in random chunkings inc
         'add_charset x streamed/buffered; unit level: header_elements on grammar + junk strings, crc32 vs zlib.crc32, '
         'compress() on chunk lists. Non-trivial = the tool had something to decide (non-empty body and a header, or a '
         'text body); distinct = distinct canonical case JSON')
+
+# ----------------------------------------------------------------------------------------------
+# tables regenerated from the live modules
+# ----------------------------------------------------------------------------------------------
+def _lean_char(c):
+    if c == '\\':
+        return "'\\\\'"
+    if c == "'":
+        return "'\\''"
+    if 32 <= ord(c) < 127:
+        return "'%s'" % c
+    return 'Char.ofNat %d' % ord(c)
+
+
+def _lean_str(s):
+    return '[' + ', '.join(_lean_char(c) for c in s) + ']'
+
+
+def tables(ctx):
+    import inspect
+    _setup()
+    from cherrypy.lib import encoding, httputil
+    sig = inspect.signature(encoding.gzip).parameters
+    src = [
+        '/- GENERATED by harness/c17.py from the live cherrypy modules (encoding.py, httputil.py); do not edit. -/',
+        'namespace CpModel.Gen.C17',
+        '',
+        '/-- encoding._COMPRESSION_LEVEL_FAST / _BEST -/',
+        'def levelFast : Nat := %d' % int(encoding._COMPRESSION_LEVEL_FAST),
+        'def levelBest : Nat := %d' % int(encoding._COMPRESSION_LEVEL_BEST),
+        '/-- defaults of encoding.gzip(compress_level, mime_types) -/',
+        'def defaultCompressLevel : Nat := %d' % int(sig['compress_level'].default),
+        'def defaultMimeTypes : List (List Char) := [%s]' % ', '.join(_lean_str(m) for m in sig['mime_types'].default),
+        '/-- ResponseEncoder.default_encoding -/',
+        'def defaultEncoding : List Char := %s' % _lean_str(encoding.ResponseEncoder.default_encoding),
+        '/-- httputil.RE_HEADER_SPLIT.pattern, httputil.q_separator.pattern -/',
+        'def reHeaderSplit : List Char := %s' % _lean_str(httputil.RE_HEADER_SPLIT.pattern),
+        'def qSeparator : List Char := %s' % _lean_str(httputil.q_separator.pattern),
+        '/-- ResponseEncoder class defaults: text_only, add_charset, encoding is None -/',
+        'def defaultTextOnly : Bool := %s' % ('true' if encoding.ResponseEncoder.text_only else 'false'),
+        'def defaultAddCharset : Bool := %s' % ('true' if encoding.ResponseEncoder.add_charset else 'false'),
+        'def defaultForcedIsNone : Bool := %s' % ('true' if encoding.ResponseEncoder.encoding is None else 'false'),
+        '',
+        'end CpModel.Gen.C17',
+        '',
+    ]
+    return {'CpModel/Gen/C17Tables.lean': '\n'.join(src)}
+
 
 # ----------------------------------------------------------------------------------------------
 # line protocol helpers
@@ -960,19 +1009,20 @@ def run_compress_unit(chunks, level, mtime):
     return b''.join(encoding.compress(iter(chunks), level))
 
 
-def check_member(ctx, case, chunks, level, mtime, member, lines, pending):
-    """Oracle on one real gzip member + queue the model frame comparison."""
+def member_check(chunks, level, mtime, member):
+    """Oracle on one real gzip member (worker side).  Returns (fails, frame line or None, hist keys)."""
     body = b''.join(chunks)
+    fails, hist = [], []
     ok = True
     try:
         if _gzip.decompress(member) != body:
-            ctx.oracle_fail(case, 'gzip member decompresses to other bytes', 'gz:lossy')
+            fails.append(('gzip member decompresses to other bytes', 'gz:lossy'))
             ok = False
     except Exception as e:
-        ctx.oracle_fail(case, 'gzip member invalid: %s: %s' % (type(e).__name__, e), 'gz:invalid_member')
+        fails.append(('gzip member invalid: %s: %s' % (type(e).__name__, e), 'gz:invalid_member'))
         ok = False
     if len(member) < 18:
-        return
+        return fails, None, hist
     payload = member[10:-8]
     # the contract of the deflate parameter, checked on the real zlib output
     try:
@@ -982,13 +1032,13 @@ def check_member(ctx, case, chunks, level, mtime, member, lines, pending):
     except Exception:
         lawful = False
     if not lawful:
-        ctx.count('frame:payload_not_a_complete_deflate_stream')
+        hist.append('frame:payload_not_a_complete_deflate_stream')
         if ok:
-            ctx.oracle_fail(case, 'bytes 10..-8 of the member are not one complete raw-deflate stream of the body',
-                            'gz:invalid_member')
-        return
-    lines.append('frame %d %d %s %s %s' % (level, int(mtime), H(payload), L(H(c) for c in chunks), H(member)))
-    pending.append(('frame', case, None))
+            fails.append(('bytes 10..-8 of the member are not one complete raw-deflate stream of the body',
+                          'gz:invalid_member'))
+        return fails, None, hist
+    hist.append('frame:checked')
+    return fails, 'frame %d %d %s %s %s' % (level, int(mtime), H(payload), L(H(c) for c in chunks), H(member)), hist
 
 
 class _Big(bytes):
@@ -1051,7 +1101,9 @@ def eval_case(case):
             rec['hist'].append('gz:empty_chunk')
         rec['nontrivial'] = nbytes > 0 and case['ae'] not in (None, '')
         if rec['impl']['D'] == 'compress' and not rec['fails']:
-            rec['member'] = obs['body']
+            f2, rec['frame'], h2 = member_check(case['_chunks'], case['level'], case.get('mtime', 0), obs['body'])
+            rec['fails'] += f2
+            rec['hist'] += h2
         case.pop('_chunks', None)
     elif t == 'cs':
         obs = run_cs(case)
@@ -1081,10 +1133,12 @@ def eval_case(case):
     elif t == 'unit':
         chunks = [bytes.fromhex(x) for x in case['chunks']]
         try:
-            rec['member'] = run_compress_unit(chunks, case['level'], case['mtime'])
+            member = run_compress_unit(chunks, case['level'], case['mtime'])
+            rec['fails'], rec['frame'], h2 = member_check(chunks, case['level'], case['mtime'], member)
+            rec['hist'] = h2
         except Exception as e:
             rec['fails'] = [('compress() raised %s: %s' % (type(e).__name__, e), 'gz:compress_raises')]
-        rec['hist'] = ['unit:compress:level%d' % case['level']]
+        rec['hist'] = rec['hist'] + ['unit:compress:level%d' % case['level']]
         rec['nontrivial'] = True
     return rec
 
@@ -1100,9 +1154,9 @@ def settle(ctx, recs, compare=True):
         for what, sig in rec['fails']:
             ctx.oracle_fail(case, what, sig)
         known_class = any(ctx.match_known(sig) for _, sig in rec['fails'])
-        if 'member' in rec:
-            chunks = [bytes.fromhex(x) for x in case['chunks']]
-            check_member(ctx, case, chunks, case['level'], case.get('mtime', 0), rec['member'], lines, pending)
+        if rec.get('frame'):
+            lines.append(rec['frame'])
+            pending.append(('frame', case, None))
         if rec['fails'] and not known_class:
             continue
         for l in rec['lines']:
